@@ -484,3 +484,11 @@ pub(crate) enum ScopeVarLvaluePath {
 pub(crate) fn verif_get_var_name(var_id: usize) -> String {
     get_var_name(var_id)
 }
+
+#[cfg(glass_easel_verif)]
+pub(crate) fn verif_next_ident_name(var_id: usize) -> (String, usize) {
+    let mut block = JsBlockStat::new();
+    block.ident_id_inc = var_id;
+    let name = block.next_ident_name();
+    (name, block.ident_id_inc)
+}
